@@ -324,6 +324,9 @@ func Structures() []Entry {
 						b.Extensions = ext(false, false, false, true)
 					}),
 					depKey([]schema.LabelDependent{lbl(0, "gcp")}, nil): markerBody("m_gcp", nil),
+					// label values holding characters JSON escapes (<, >, &) or Go considers non-printable (no-break space)
+					depKey([]schema.LabelDependent{lbl(0, "a&b<c>")}, nil):  markerBody("m_amp", nil),
+					depKey([]schema.LabelDependent{lbl(0, "no\u00a0brk")}, nil): markerBody("m_nbsp", nil),
 				},
 				Address: &schema.BlockAddrSchema{
 					Steps:               schema.Address{schema.LabelStep{Index: 0}, schema.LabelStep{Index: 1}},
@@ -339,6 +342,52 @@ func Structures() []Entry {
 		"res \"\" \"n\" {\n}\n",
 		"res \"aws\" {\n}\nres {\n}\n",
 		"res \"aws\" \"a\" {\n}\n/* \u017e */ res \"a\" \"n\" {\n}\n",
+		"res \"a&b<c>\" \"x\" {\n  m_amp = \"1\"\n  m_aws = \"no\"\n}\nres \"no\u00a0brk\" \"y\" {\n  m_nbsp = \"1\"\n}\nres \"a&\" \"z\" {\n}\n",
+	)
+
+	// two (and three) key attributes selecting one dependent body that has a documentation link
+	add("dep-2attrs-docs", func() *schema.BodySchema {
+		key := func() *schema.AttributeSchema {
+			return &schema.AttributeSchema{Constraint: schema.LiteralType{Type: cty.String}, IsOptional: true, IsDepKey: true}
+		}
+		return &schema.BodySchema{Blocks: map[string]*schema.BlockSchema{
+			"data": {
+				Labels: []*schema.LabelSchema{{Name: "name"}},
+				Body:   &schema.BodySchema{Attributes: map[string]*schema.AttributeSchema{"kind": key(), "zone": key(), "alpha": key()}},
+				DependentBody: map[schema.SchemaKey]*schema.BodySchema{
+					depKey(nil, []schema.AttributeDependent{attrDep("kind", cty.StringVal("k")), attrDep("zone", cty.StringVal("z"))}): markerBody("m_kz", func(b *schema.BodySchema) {
+						b.DocsLink = &schema.DocsLink{URL: "https://example.com/kz"}
+					}),
+					depKey(nil, []schema.AttributeDependent{attrDep("kind", cty.StringVal("k")), attrDep("zone", cty.StringVal("z")), attrDep("alpha", cty.StringVal("a"))}): markerBody("m_kza", func(b *schema.BodySchema) {
+						b.DocsLink = &schema.DocsLink{URL: "https://example.com/kza"}
+					}),
+				},
+			},
+		}}
+	},
+		"data \"a\" {\n  zone = \"z\"\n  kind = \"k\"\n  m_kz = \"1\"\n}\ndata \"b\" {\n  kind = \"k\"\n  alpha = \"a\"\n  zone = \"z\"\n  m_kza = \"1\"\n}\n",
+	)
+
+	// an inferred body whose nested block types have no body schema
+	add("infer-nobody", func() *schema.BodySchema {
+		return &schema.BodySchema{Blocks: map[string]*schema.BlockSchema{
+			"res": {
+				Labels: []*schema.LabelSchema{{Name: "name"}},
+				Body: &schema.BodySchema{
+					Attributes: map[string]*schema.AttributeSchema{"a": strAttr(nil)},
+					Blocks: map[string]*schema.BlockSchema{
+						"ob": {Type: schema.BlockTypeObject},
+						"lb": {Type: schema.BlockTypeList},
+						"sb": {Type: schema.BlockTypeSet},
+						"mb": {Type: schema.BlockTypeMap, Labels: []*schema.LabelSchema{{Name: "key"}}},
+					},
+				},
+				Address: &schema.BlockAddrSchema{Steps: schema.Address{schema.StaticStep{Name: "res"}, schema.LabelStep{Index: 0}}, BodyAsData: true, InferBody: true, BodySelfRef: true, AsReference: true},
+			},
+		}}
+	},
+		"res \"a\" {\n  a = \"x\"\n  ob {\n  }\n  lb {\n  }\n  lb {\n    z = 1\n  }\n  sb {\n  }\n  mb \"k\" {\n  }\n}\n",
+		"res \"a\" {\n  ob {\n  }\n}\n",
 	)
 
 	// a block type without a static body whose dependent body resolves
@@ -625,6 +674,22 @@ func Structures() []Entry {
 		"variable \"x\" {\n  type = string\n  validation {\n    msg = \"m\"\n  }\n}\nvariable \"y\" {\n  validation {\n  }\n  type = map(number)\n}\n",
 	)
 
+	// one address declared twice in a file, the second declaration on line 9 (one inserted line moves it to a
+	// two-digit line number), and references to it
+	{
+		var mk func() *schema.BodySchema
+		for _, e := range out {
+			if e.ID == "S:addr-forms" {
+				mk = e.Mk
+			}
+		}
+		if mk != nil {
+			out = append(out, Entry{ID: "S:dup-decl", Mk: mk, Family: "struct", Hooks: -1, Seeds: []string{
+				"variable \"x\" {\n  type = string\n}\nvariable \"a\" {\n  default = var.x\n}\n\n\nvariable \"x\" {\n  type = number\n}\nvariable \"b\" {\n  default = var.x\n}\n",
+			}})
+		}
+	}
+
 	// --- TargetableAs on a block body and on the ROOT body; implied origins; targets --------------
 	add("targetable-block", func() *schema.BodySchema {
 		tas := func() schema.Targetables {
@@ -649,7 +714,12 @@ func Structures() []Entry {
 					},
 					DependentBody: map[schema.SchemaKey]*schema.BodySchema{
 						depKey(nil, []schema.AttributeDependent{attrDep("src", cty.StringVal("./m"))}): markerBody("m_in", func(b *schema.BodySchema) {
-							b.TargetableAs = schema.Targetables{{Address: lang.Address{lang.RootStep{Name: "ta"}, lang.AttrStep{Name: "dep"}}, AsType: cty.Bool}}
+							// (nested targetables written by hand, not in address order)
+							b.TargetableAs = schema.Targetables{{Address: lang.Address{lang.RootStep{Name: "ta"}, lang.AttrStep{Name: "dep"}}, AsType: cty.Bool},
+								{Address: lang.Address{lang.RootStep{Name: "ta"}, lang.AttrStep{Name: "cfg"}}, AsType: cty.Object(map[string]cty.Type{"zone": cty.String, "alias": cty.String}),
+									NestedTargetables: schema.Targetables{
+										{Address: lang.Address{lang.RootStep{Name: "ta"}, lang.AttrStep{Name: "cfg"}, lang.AttrStep{Name: "zone"}}, AsType: cty.String},
+										{Address: lang.Address{lang.RootStep{Name: "ta"}, lang.AttrStep{Name: "cfg"}, lang.AttrStep{Name: "alias"}}, AsType: cty.String}}}}
 							b.ImpliedOrigins = schema.ImpliedOrigins{{
 								OriginAddress: lang.Address{lang.RootStep{Name: "ta"}, lang.AttrStep{Name: "dep"}},
 								TargetAddress: lang.Address{lang.RootStep{Name: "output"}, lang.AttrStep{Name: "dep"}},
